@@ -32,7 +32,7 @@ LEVEL_TEXT = (
     "answer lost/late/twice/retransmitted/for another property, instance, object type or service, indication interleaved, error answer, "
     "server disconnect, TCP reset) of length <= 3 (quick) / <= 4 (thorough) is run against 4 sequential property calls (the third repeats the "
     "key of the first); closes (user disconnect, server DisconnectRequest, TCP reset) are injected at every distinct wire instant of the baseline "
-    "and between them for scripts of length <= 1 / <= 2; 2-4 concurrent callers for scripts <= 1 / <= 2; the application cancelling the task of a call at every wire instant (scripts <= 1 / <= 2, also one of 3 concurrent callers) with the later calls going on over the same connection; counter wrap-around 254->1; configuration dimension: indication callback "
+    "and between them for scripts of length <= 1 / <= 2; 2-4 concurrent callers for scripts <= 1 / <= 2; the application cancelling the task of a call at every wire instant (scripts <= 1 / <= 2, also one of 3 concurrent callers) with the later calls going on over the same connection; requests that fail before transmission (number_of_elements 16, object instance 256, oversized data, transport refusing the send) between good ones; counter wrap-around 254->1; configuration dimension: indication callback "
     "registered / not registered (the class default) / raising, UDP route-back, for scripts <= 2 / <= 3 with unsolicited indications for the "
     "property being read. "
     "Bounded exhaustive enumeration of fault sequences, hence fault_enumeration."
@@ -87,6 +87,37 @@ def run_case(ctx, case, judge=True):
     calls = []  # dicts: idx, start, end, outcome, value/exception
     close_rec = {}
     cancel = case.get("cancel")  # None | {"at": t, "worker": k}
+    bad_before = {int(k): v for k, v in (case.get("bad_before") or {}).items()}  # call index -> kind of unserialisable request issued before it
+    send_faults = set(case.get("send_faults") or ())  # indexes of client request transmissions the transport refuses
+    local = {"bad": [], "refused_tx": [], "n": 0}
+    server_hook = loop.on_send
+
+    def on_send(transport, data, addr):
+        if data[2:4] == b"\x03\x10":  # DEVICE_CONFIGURATION_REQUEST
+            k = local["n"]
+            local["n"] += 1
+            if k in send_faults:
+                local["refused_tx"].append((round(loop.time() - 1000.0, 6), k))
+                raise CommunicationError("transport refuses to send (scripted)")
+        server_hook(transport, data, addr)
+
+    if send_faults:
+        loop.on_send = on_send
+
+    async def bad_call(conn, kind):
+        rec = {"kind": kind, "time": round(loop.time() - 1000.0, 6), "counter_before": conn.sequence_number}
+        try:
+            if kind == "noe16":
+                await conn.read_property(ResourceObjectType(DEV), 11, number_of_elements=16)
+            elif kind == "inst256":
+                await conn.read_property(ResourceObjectType(DEV), 11, object_instance=256)
+            else:
+                await conn.write_property(ResourceObjectType(IPP), 52, b"x" * 70000)
+            rec["outcome"] = "returned"
+        except BaseException as exc:  # noqa: BLE001
+            rec["outcome"] = type(exc).__name__
+        rec["counter_after"] = conn.sequence_number
+        local["bad"].append(rec)
     cancel_rec = {}
     extra_ind = case.get("indications", ())  # times at which the server sends unsolicited indications
 
@@ -171,6 +202,8 @@ def run_case(ctx, case, judge=True):
             await asyncio.wait(workers)
         else:
             for idx in range(ncalls):
+                if idx in bad_before and conn.communication_channel is not None:
+                    await bad_call(conn, bad_before[idx])
                 task = asyncio.ensure_future(one_call(conn, idx))
                 running.clear()
                 running[idx] = task
@@ -198,7 +231,7 @@ def run_case(ctx, case, judge=True):
     obs["send_after_close"] = [e for e in loop.events if e[0] == "send_after_close"]
     loop.finish()
     asyncio.set_event_loop(None)
-    obs.update(server=server, calls=calls, indications=indications, close=close_rec, wire=wire, cancel=cancel_rec)
+    obs.update(server=server, calls=calls, indications=indications, close=close_rec, wire=wire, cancel=cancel_rec, local=local)
     if judge:
         _judge(ctx, obs)
     return obs
@@ -214,6 +247,8 @@ def _witness(obs, **more):
         "frames_delivered": [(d["time"], d["kind"], d.get("variant"), d["key"], d["data"].hex()) for d in srv.delivered][:30],
         "close": obs["close"],
         "cancelled": obs.get("cancel"),
+        "requests_failing_before_transmission": (obs.get("local") or {}).get("bad"),
+        "transmissions_refused_by_the_transport": (obs.get("local") or {}).get("refused_tx"),
     }
     w.update(more)
     return w
@@ -237,6 +272,13 @@ def _judge(ctx, obs):
         return
 
     by_uid = {d["uid"]: d for d in srv.delivered if not d.get("repetition")}
+    for b in obs["local"]["bad"]:
+        ctx.count("requests_failing_before_transmission")
+        ctx.count(f"unserialisable_request_{b['kind']}_{b['outcome']}")
+        if b["outcome"] == "returned":
+            ctx.violation(f"{tag}-unserialisable-request-returns-normally", _witness(obs), f"the {b['kind']} request returned normally")
+    if obs["local"]["refused_tx"]:
+        ctx.count("transmissions_refused_by_the_transport", len(obs["local"]["refused_tx"]))
     close_t = obs["close"].get("time")
     # ---- O1: a call returns only its own answer ---------------------------
     for c in calls:
@@ -571,7 +613,8 @@ def run(ctx):
                 "concurrent_requests_serialised", "counter_wraparound_seen", "cases_without_indication_callback",
                 "indications_delivered_without_callback", "indication_callback_raised", "route_back_cases",
                 "calls_cancelled_by_the_application", "calls_after_a_cancellation_returned", "cancelled_during_ack-wait",
-                "cancelled_during_answer-wait", "cancelled_during_queued")
+                "cancelled_during_answer-wait", "cancelled_during_queued", "requests_failing_before_transmission",
+                "transmissions_refused_by_the_transport")
     n = 0
     max_len = ctx.scale(3, 4)
     close_len = ctx.scale(1, 2)
@@ -637,6 +680,18 @@ def run(ctx):
                         cancels += 1
                         run_case(ctx, dict(base, cancel={"at": at, "worker": worker}))
     ctx.count("cancel_injection_cases", cancels)
+    # requests that fail locally before transmission (unserialisable, or refused by the transport) between good ones:
+    # the server model only counts what it received
+    for transport, alphabet in (("udp", UDP_SYMBOLS), ("tcp", TCP_SYMBOLS)):
+        for s in _scripts(alphabet, ctx.scale(1, 2)):
+            variants = [{"bad_before": {str(pos): kind}} for kind in ("noe16", "inst256", "longdata") for pos in (0, 1, 2)]
+            variants += [{"bad_before": {"0": "noe16", "1": "inst256", "3": "longdata"}}]
+            variants += [{"send_faults": [k]} for k in (0, 1, 2)] + [{"send_faults": [0, 1]}, {"send_faults": [1], "bad_before": {"1": "noe16"}}]
+            for v in variants:
+                n += 1
+                if ctx.mine(n):
+                    run_case(ctx, dict({"transport": transport, "script": s}, **v))
+                    ctx.count("local_failure_cases")
     ctx.sample({"udp_alphabet": {s: SYMBOL_TEXT[s] for s in UDP_SYMBOLS}})
     ctx.sample({"workload": CALLS})
     ctx.exhaustive = True
